@@ -12,4 +12,11 @@ PROPS = {
         "trusted_base": COMMON_TB + ["Go runtime slice/append semantics (modelled as list append)"],
         "assumptions": ["tags and texts are compared with Go == / bytes.Equal; modelled as decidable equality on an arbitrary type"],
     },
+    "C17": {
+        "level_text": "Lean 4 theorems for all pairs/triples of objects (instants as unbounded integers) and nil: the comparator equals 'later of published/updated is after', nil first; irreflexive, asymmetric, transitive, incomparability transitive (strict weak order); any list sorted by it is newest-first and any two sorted permutations show the same key sequence (core Lean's Perm.eq_of_pairwise). The model is a transcription of ItemOrderTimestamp tied to helpers.go by an all-pairs differential run over a pool of objects of all 13 object Go types, nil and typed nil.",
+        "level_note": "Trusted: Lean kernel (propext, Quot.sound), the Go harness; time.Time.After is modelled as integer comparison of (unix sec, nsec) - monotonic clock readings are outside the model; sort.SliceStable itself is exercised by the oracle, not modelled.",
+        "technique": "Lean 4 proof (case analysis + linear integer arithmetic, list permutation lemma) on a transcription of the comparator; correspondence by all-pairs differential testing",
+        "trusted_base": COMMON_TB + ["time.Time.After modelled as integer comparison of instants; Go's sort package"],
+        "assumptions": ["instants carry no monotonic clock reading (true for decoded and constructed values)"],
+    },
 }
